@@ -164,6 +164,7 @@ structure WF2 (a b : List Obj) : Prop where
   pool : ∀ o ∈ b, o.kind = .pool → ∃ c, o.lines = [c]
   anchA : ∀ o ∈ a, o.anchor = true → o.kind = .tg ∨ o.kind = .user
   anchB : ∀ o ∈ b, o.anchor = true → o.kind = .tg ∨ o.kind = .user
+  anchAB : ∀ o ∈ a, ∀ o' ∈ b, o.id = o'.id → o.anchor = o'.anchor
 
 /-- `pend`: ready marks of objects whose comparison is still running (name adopted, content not yet verified) -/
 structure K (a b : List Obj) (T : List Ref) (pend : List (Ref × String)) (st : St) : Prop where
@@ -1507,7 +1508,7 @@ theorem anchor_name_obj (l : List Obj) (k : Kind) (n : String)
   have hk : o.kind = k ∧ o.anchor = true := by simpa using ho'.2
   exact ⟨o, ho'.1, hk.2, by unfold Obj.id; rw [hk.1, hon]⟩
 
-theorem diffAnchors_K (hw : WF A a b) (h2 : WF2 a b) (hab : ∀ o ∈ a, ∀ o' ∈ b, o.id = o'.id → o.anchor = o'.anchor)
+theorem diffAnchors_K (hw : WF A a b) (h2 : WF2 a b)
     (k : Kind) (hk2 : rk k = 2) (T : List Ref) (st st' : St) (he : diffAnchors st k = some st') (ho : st'.out = []) :
     st.out = [] ∧ (K a b T [] st → ∃ T', K a b T' [] st' ∧ (∀ r ∈ T, r ∈ T') ∧
       (∀ o ∈ a, o.kind = k → o.anchor = true → (∃ o' ∈ b, o'.anchor = true ∧ o'.id = o.id) → eqv 3 a b o.id o.id = true) ∧
@@ -1593,7 +1594,7 @@ theorem diffAnchors_K (hw : WF A a b) (h2 : WF2 a b) (hab : ∀ o ∈ a, ∀ o' 
         | some o =>
           have hom := find_id a _ o hfo
           have hid : o.id = o'.id := by rw [hom.2]; unfold Obj.id; rw [hok]
-          exact ⟨o, hom.1, by rw [hab o hom.1 o' ho' hid]; exact hanch', hid⟩
+          exact ⟨o, hom.1, by rw [h2.anchAB o hom.1 o' ho' hid]; exact hanch', hid⟩
 
 /-! ## the clean-up -/
 
@@ -1716,13 +1717,13 @@ theorem anchor_pending (hw : WF A a b) (st : St) (hK : K a b T [] st) (o : Obj) 
       cases hkk : o.kind <;> simp [hkk, rk] at hr ⊢
     have htd : st.toDel.contains o.id = true := by simpa using hK.td o.id ht
     unfold eligible
-    simp [hn, hs, hk, htd]
+    simp only [hn, hk, Bool.not_false, Bool.true_and, Bool.and_true, Bool.and_eq_true, Bool.or_eq_true, Bool.not_eq_true']
+    exact ⟨Or.inl htd, hs⟩
   rw [hnil] at hmem
   cases hmem
 
 /-- **"Unchanged" only for an equivalent device.** -/
-theorem unchanged_equiv (a b : List Obj) (hw : WF (a.map (·.id)) a b) (h2 : WF2 a b)
-    (hab : ∀ o ∈ a, ∀ o' ∈ b, o.id = o'.id → o.anchor = o'.anchor) (h : engine a b = some []) :
+theorem unchanged_equiv (a b : List Obj) (hw : WF (a.map (·.id)) a b) (h2 : WF2 a b) (h : engine a b = some []) :
     (∀ o ∈ a, o.anchor = true → ∃ o' ∈ b, o'.anchor = true ∧ o'.id = o.id) ∧
     (∀ o' ∈ b, o'.anchor = true → ∃ o ∈ a, o.anchor = true ∧ o.id = o'.id) ∧
     (∀ o ∈ a, o.anchor = true → eqv fuel a b o.id o.id = true) := by
@@ -1740,10 +1741,74 @@ theorem unchanged_equiv (a b : List Obj) (hw : WF (a.map (·.id)) a b) (h2 : WF2
       rw [deleteUnused_out] at h
       have h' := List.append_eq_nil_iff.1 h
       have hpend : delRounds ((pendingDel s2).length + 1) (pendingDel s2) = [] := (List.append_eq_nil_iff.1 h'.2).2
-      have hU := diffAnchors_K hw h2 hab .user rfl
       have hKi : K a b [] [] (initSt a b) :=
         ⟨rfl, rfl, fun _ h => (nomatch h), fun _ h => (nomatch h), fun _ h => (nomatch h), fun _ h => (nomatch h), fun _ h => (nomatch h)⟩
-      have hT := diffAnchors_K hw h2 hab .tg rfl [] (initSt a b) s1 hd1
-      sorry
+      have hU0 := diffAnchors_K hw h2 .user rfl [] s1 s2 hd2 h'.1
+      have hT := diffAnchors_K hw h2 .tg rfl [] (initSt a b) s1 hd1 hU0.1
+      obtain ⟨T1, hK1, _, ht1, ht2, ht3⟩ := hT.2 hKi
+      have hU := diffAnchors_K hw h2 .user rfl T1 s1 s2 hd2 h'.1
+      obtain ⟨T2, hK2, hT12, hu1, hu2, hu3⟩ := hU.2 hK1
+      -- nothing is pending
+      have hpnil : pendingDel s2 = [] := by
+        cases hp : pendingDel s2 with
+        | nil => rfl
+        | cons p ps =>
+          exfalso
+          refine delRounds_ne (fun r => rk r.1) (pendingDel s2).length (pendingDel s2) (by rw [hp]; exact List.cons_ne_nil _ _) ?_ ?_ hpend
+          · intro p1 hp1 q hq hc
+            obtain ⟨o1, ho1, hid1, _, hr1, _⟩ := mem_pendingDel s2 p1 hp1
+            obtain ⟨o2, _, hid2, _⟩ := mem_pendingDel s2 q hq
+            rw [hK2.sa] at ho1
+            rw [hr1] at hc
+            have := (hw.ares o1 ho1 q.id (by simpa using hc)).2
+            rw [hid1]
+            exact this
+          · intro p1 hp1
+            obtain ⟨o1, _, _, hl1, _⟩ := mem_pendingDel s2 p1 hp1
+            rw [hl1]; exact delLines_ne o1
+      have hall : ∀ o ∈ a, o.anchor = true → ∃ o' ∈ b, o'.anchor = true ∧ o'.id = o.id := by
+        intro o ho hanch
+        apply Classical.byContradiction
+        intro hno
+        rcases h2.anchA o ho hanch with hk | hk
+        · exact anchor_pending hw s2 hK2 o ho (by rw [hk]; rfl) (hT12 _ (ht2 o ho hk hanch hno)) hno hpnil
+        · exact anchor_pending hw s2 hK2 o ho (by rw [hk]; rfl) (hu2 o ho hk hanch hno) hno hpnil
+      refine ⟨hall, ?_, ?_⟩
+      · intro o' ho' hanch'
+        rcases h2.anchB o' ho' hanch' with hk | hk
+        · exact ht3 o' ho' hk hanch'
+        · exact hu3 o' ho' hk hanch'
+      · intro o ho hanch
+        have hex := hall o ho hanch
+        rcases h2.anchA o ho hanch with hk | hk
+        · exact eqv_mono a b 3 fuel (by decide) _ _ (ht1 o ho hk hanch hex)
+        · exact eqv_mono a b 3 fuel (by decide) _ _ (hu1 o ho hk hanch hex)
+
+/-! ## decidable form of the further well-formedness -/
+
+def wf2B (a b : List Obj) : Bool :=
+  kindByKeyB a b &&
+  decide (∀ x ∈ a, ∀ y ∈ b, ∀ sx ∈ x.secs, ∀ sy ∈ y.secs, ∀ s ∈ sx.subs, ∀ s' ∈ sy.subs,
+    s.key = s'.key → s.ref.isSome = s'.ref.isSome) &&
+  decide (∀ o ∈ a, (o.secs.map (·.head)).Nodup ∧ ∀ sec ∈ o.secs, (keysOf sec.subs).Nodup) &&
+  decide (∀ o ∈ b, (o.secs.map (·.head)).Nodup ∧ ∀ sec ∈ o.secs, (keysOf sec.subs).Nodup) &&
+  decide (∀ o ∈ b, o.kind = .pool → o.lines.length = 1) &&
+  decide (∀ o ∈ a, o.anchor = true → o.kind = .tg ∨ o.kind = .user) &&
+  decide (∀ o ∈ b, o.anchor = true → o.kind = .tg ∨ o.kind = .user) &&
+  decide (∀ o ∈ a, ∀ o' ∈ b, o.id = o'.id → o.anchor = o'.anchor)
+
+theorem wf2_of_wf2B (a b : List Obj) (h : wf2B a b = true) : WF2 a b := by
+  unfold wf2B at h
+  simp only [Bool.and_eq_true, decide_eq_true_eq] at h
+  obtain ⟨⟨⟨⟨⟨⟨⟨h1, h2⟩, h3⟩, h4⟩, h5⟩, h6⟩, h7⟩, h8⟩ := h
+  refine ⟨kindByKey_of_B a b h1, h2, h3, h4, ?_, h6, h7, h8⟩
+  intro o ho hk
+  have := h5 o ho hk
+  cases hl : o.lines with
+  | nil => rw [hl] at this; cases this
+  | cons c cs =>
+    cases cs with
+    | nil => exact ⟨c, rfl⟩
+    | cons _ _ => rw [hl] at this; simp at this
 
 end NA.Vpn.G
